@@ -31,7 +31,7 @@ META = {
         "list_int_insert: UNDECIDED (no answer in 20 min); list_string.c and the other generated list_*.c files not started",
         "gc.c histories (C20.gc.hist), generated-code templates (C20.tmpl.ub): other units",
     ],
-    "undecided_part": "operation HISTORIES are covered only through inductiveness: every operation preserves DYN_WF/LIST_WF and updates the abstract sequence as specified, so any finite series does; the induction step post(op) => pre(next op) is by inspection of the two macro texts (DYN_WF_POST vs DYN_WF_PRE), not machine-checked.  Struct arrays only for the listed element sizes.",
+    "undecided_part": "operation HISTORIES are covered only through inductiveness: every operation preserves DYN_WF/LIST_WF and updates the abstract sequence as specified, so any finite series does; the induction step post(op) => pre(next op) is by inspection of the two macro texts (DYN_WF_POST vs DYN_WF_PRE), not machine-checked.  Struct arrays only for the listed element sizes.  list_int_insert is OPEN (no obligation closes: > 20 min in propositional reduction).",
 }
 
 HARNESS = "harness/dyn_h.c"
@@ -183,6 +183,10 @@ def list_int(prop, pfx, only=None):
     obs = []
     for op, entry, fn, ab, grows, mm in LIST_OPS:
         if only and op not in only:
+            continue
+        if op.startswith("insert"):
+            # OPEN (not registered): list_int_insert does not get past CBMC's propositional reduction in 20 min (memmove contract
+            # havoc + a further symbolic write); a check that can only report "undecided" must not sit in a tier
             continue
         must = [r"%s\.postcondition" % fn, r"COVER"]
         if grows:
